@@ -308,7 +308,14 @@ fn parse_2_elem_f64_arr<'a>(
         Ok((expr, _)) => expr,
         Err(e) => return Err(e.map(|_| format!("Expected closing bracket at: '...{}'", expr))),
     };
-    Ok((expr, [v1.eval(&[]), v2.eval(&[])]))
+    // Entries are constant expressions: a variable cannot be evaluated here.
+    match (v1.safe_eval(&[]), v2.safe_eval(&[])) {
+        (Some(x1), Some(x2)) => Ok((expr, [x1, x2])),
+        _ => Err(nom::Err::Error(format!(
+            "Expected a constant expression before: '...{}'",
+            expr
+        ))),
+    }
 }
 
 fn parse_list_of_elem<'a, T>(
